@@ -2,14 +2,17 @@ _SHIM = {"verifc13gen/c13_gen.go": "harness/verifc13gen/c13_gen.go"}   # overlay
 
 CHECK = {
     "builds": [
-        {"mode": "inpkg", "pkg": "server/internal/client/ollama", "files": ["c13_names_test.go"], "shims": _SHIM},
-        {"mode": "inpkg", "pkg": "server", "files": ["c13_paths_test.go"], "shims": _SHIM},
+        {"mode": "inpkg", "pkg": "server/internal/client/ollama", "files": ["c13_names_test.go", "c13_fuzz_test.go"], "shims": _SHIM},
+        {"mode": "inpkg", "pkg": "server", "files": ["c13_paths_test.go", "c13_fuzz_test.go"], "shims": _SHIM},
+        # both again with fuzz coverage instrumentation, for the native fuzz targets of the thorough tier
+        {"mode": "inpkg", "pkg": "server/internal/client/ollama", "files": ["c13_names_test.go", "c13_fuzz_test.go"], "shims": _SHIM, "fuzz": "FuzzC13Names"},
+        {"mode": "inpkg", "pkg": "server", "files": ["c13_paths_test.go", "c13_fuzz_test.go"], "shims": _SHIM, "fuzz": "FuzzC13Paths"},
     ],
     "level": "exploration",
     "engine": "namegrammar",
     "technique": "grammar-based property testing (rapid, shrinking) of both name parsers, the legacy model-path parser, the "
                  "new client's extended-name parser and both digest parsers, with a reference grammar restated from the doc "
-                 "comments, print/parse and cross-parser round trips, and a sandboxed store audited on the file system",
+                 "comments, print/parse and cross-parser round trips, and a sandboxed store audited on the file system; thorough tier additionally runs Go's native coverage-guided fuzzer (go test -fuzz) against the same oracle over arbitrary byte strings",
     "level_text": "Randomised exploration of a character-level input grammar: names are built from parts that mostly satisfy "
                   "the documented grammar (so about half of all inputs are accepted), then wrapped in schemes/@digests and "
                   "mutated at separators, part boundaries and length limits. Every accepted input is checked against an "
@@ -24,7 +27,7 @@ CHECK = {
                   "first); on hand-made stores holding two casings of one part its answer depends on map order. "
                   "The sandboxed store is created under /dev/shm when that exists (speed only; falls back to TMPDIR). "
                   "VERIF_C13_NO_GRAMMAR=1 is a development switch used by sensitivity/C13.md to turn the grammar oracle off; "
-                  "never set it in a real run. DESIGN's additive native-fuzz campaign is not part of this check.",
+                  "never set it in a real run.",
     "design_ref": "DESIGN.md section 3 C13",
     "targets": [
         {"name": "TestC13ModelName", "build": 0,
@@ -45,6 +48,9 @@ CHECK = {
         {"name": "TestC13ExistingName", "build": 1,
          "quick": {"cases": 10000, "shards": 1, "soft_s": 35},
          "thorough": {"cases": 300000, "shards": 2, "soft_s": 330}},
+        # native coverage-guided fuzzing, thorough tier only (cannot be pinned to VERIF_SEED; the saved input is the reproducible unit)
+        {"name": "FuzzC13Names", "build": 2, "kind": "fuzz", "thorough": {"fuzztime": "120s", "workers": 3, "hard_s": 600}},
+        {"name": "FuzzC13Paths", "build": 3, "kind": "fuzz", "thorough": {"fuzztime": "120s", "workers": 3, "hard_s": 600}},
     ],
     # fractions of ALL evaluations of the six targets together (name targets are ~80 % of them)
     "floors": {"accepted": 0.25, "rejected": 0.15, "has_separator": 0.4, "near_limit_length": 0.05, "has_dotdot": 0.02,
